@@ -167,7 +167,7 @@ Fixpoint fs_get (k : key) (f : fs) : option content :=
 Record proj := {
   p_rows : table;          (* committed rows of cond-out/version_index.sqlite *)
   p_dirs : fs;             (* cond-out/<path>/<name>.task.<ts> *)
-  p_stage : bool;          (* cond-out/archive-tmp exists (left by a killed restore) *)
+  p_stage : bool;          (* cond-out/<ARCHIVE_STAGING> exists (left by a killed restore); what it CONTAINS is not state: restore empties it first (D18), so the staged content is the extraction [x] of the archive alone *)
   p_aidx : option table    (* cond-out/version_index_archive.sqlite (left by a killed archive) *)
 }.
 
@@ -249,7 +249,7 @@ Record env := { e_fail : nat -> bool; e_partial : nat -> option content }.
 Definition no_faults : env := {| e_fail := fun _ => false; e_partial := fun _ => None |}.
 
 Inductive instr :=
-| IMkdir                (* staging_path.mkdir(exist_ok=True) *)
+| IMkdir                (* shutil.rmtree(staging_path, ignore_errors=True); staging_path.mkdir(exist_ok=True) *)
 | IExtract              (* extract_archive *)
 | ICheckIndex           (* archive_version_index_path.is_file() *)
 | ILoadIndex            (* VersionIndex.create_or_load(staged index) *)
